@@ -142,7 +142,6 @@ Q q_f_move_assign_self() // f = move(f): the parameter is move-constructed from 
 Q q_f_swap_self() // f.swap(f) leaves the value unchanged (non-empty function)
 {
     u64 sa = nd_idx(1); PV x = nd_pv();
-    VF_KNOWN(C03_inplace_function_self_swap, true);
     split<1>(sa, [&](u64 c) { void* p = f_make(c + 1, x, 0); S s{c + 1, x}; k_f_swap(p, p); f_check(p, s, 0); f_fin(p, 0); END(); });
 }
 Q q_f_swap_self_empty()
